@@ -31,6 +31,7 @@ class TxnAreaCheck(TieCheck):
 class C04(TxnAreaCheck):
     pid = "C04"
     props = "Props_C04.v"
+    extra_props = [("Compose", "Props_Compose2.v")]
     harness = "c04"
     extra_trust = [
         "model: coq/Txn/TxnSeq.v (lifecycle of Txn / Updates / View / single-operation helpers over an ABSTRACT sequential map semantics); "
